@@ -8,6 +8,8 @@ import U3.Lemmas.RespGzip
 import U3.Lemmas.RespDeflate
 import U3.Lemmas.RespMulti
 import U3.Lemmas.RespChunked
+import U3.Lemmas.RespCalls
+import U3.Lemmas.RespReadChunked
 import U3.Lemmas.RespIter
 import U3.Lemmas.RespWitness
 /-!
@@ -453,6 +455,101 @@ example : out (callSeq hSrc cdDec { cfgGzipHello with chunked := true } (some tr
       [.read (some 2), .read1 none, .read (some 0), .read none]
       ({ fp := hBegin ⟨[], wireChunkedGzipHello, 3⟩ (some (lit "chunked")) none false 200 false,
          lengthRemaining := none, conn := true } : R H CD)) = some [lit "he", lit "l", [], lit "lo"] := by
+  decide +kernel
+
+/-- **`C12_concat` over the whole API** (non-chunked bodies; partial only in the framing): for every
+list of calls over `read()`, `read(0)`, `read(n)`, `read1()`, `read1(n)`, `readinto(k)` (which has no
+`decode_content` parameter and uses the response default), `stream(n)` / `stream(None)` and
+iteration — the generators run to completion — in ANY interleaving, with decoding on: no call
+raises, every call returns its list of pieces, and all pieces in order followed by a final `read()`
+are the decoded payload.  (`stream(0)` is excluded: it never terminates, by design of `read(0)`.  A
+generator abandoned half-way on a non-chunked body is a sequence of `read(amt)` calls.) -/
+theorem C12_concat_api_partial {σ δ : Type} (S : Src σ) (D : Dec δ) (cfg : Cfg δ)
+    {rem : σ → Bytes} {I : σ → Option Int → Prop} {G : δ → Bytes → Bytes → Prop}
+    (hR : RawReadSpec S cfg rem I) (hA : RawReadAllSpec S cfg rem I) (hR1 : RawRead1Spec S cfg rem I)
+    (hD : StreamLaw D G) (hCN : ClosesN S cfg rem I) (hCA : ClosesAll S cfg I) (hZ : ClosedNil S rem I)
+    (dco : Option Bool) (hdc : dco.getD cfg.decodeDefault = true) (hdef : cfg.decodeDefault = true)
+    (hnc : cfg.chunked = false) (calls : List Call) (hcs : ∀ c ∈ calls, c ≠ .stream (some 0))
+    (r : R σ δ) (payload : Bytes) (hinv : Inv cfg rem I G r payload)
+    (hfuelS : 2 * payload.length + 1 < cfg.fuel) (hfuel : (rem r.fp).length + 1 < cfg.fuel) :
+    ∃ pss r' last r'', callSeqG S D cfg dco calls r = ((pss, none), r') ∧ pss.length = calls.length ∧
+      read S D cfg r' none dco = (.ok last, r'') ∧ pss.flatten.flatten ++ last = payload := by
+  obtain ⟨pss, r', rest', h1, hinv', hcat, hlen⟩ :=
+    callSeqG_concat S D cfg hR hA hR1 hD hCN hCA hZ dco hdc hdef hnc calls r payload hcs hinv hfuelS hfuel
+  obtain ⟨r'', h2, _⟩ := read_all_spec S D cfg hA hD r' rest' dco false hdc hinv'
+  exact ⟨pss, r', rest', r'', h1, hlen, h2, hcat⟩
+
+/-- … evaluated on the two-frame zstd response: `readinto(1)`, `read(0)`, `stream(1)`, iteration, `read1()` -/
+example :
+    (callSeqG hSrc cdDec cfgZstdAA (some true) [.readinto 1, .read (some 0), .stream (some 1), .iter, .read1 none]
+      ({ fp := hBegin ⟨[], wireZstdAA, 3⟩ none (some (lit "20")) false 200 false,
+         lengthRemaining := some 20, conn := true } : R H CD)).1 =
+      ([[lit "a"], [[]], [lit "a"], [], [[]]], none) := by
+  decide +kernel
+
+/-- **`C12_read_chunked_concat`**: `read_chunked(amt)` / `stream(amt)` (`amt ≠ 0`, decoding on) run
+by urllib3's own chunk parser from the start of a well-framed chunked body — ANY chunk vector,
+size-line spelling, chunk extensions, trailers (`CI` / `cRem`: the same reference reader as for
+`http.client`), any decoder obeying the `StreamLaw`, any segmentation, `amt` smaller or larger than
+the chunks: terminates, never raises, yields no empty piece, the pieces concatenate to the decoded
+payload, the file ends up closed and the response at its end (`Inv … []`: every later `read` /
+`read1` returns b"", `C12_after_end_empty`) -/
+theorem C12_read_chunked_concat {δ : Type} (D : Dec δ) (cfg : Cfg δ) {G : δ → Bytes → Bytes → Prop}
+    (hD : StreamLaw D G) (amt : Option Nat) (hamt : amt ≠ some 0)
+    (hch : cfg.chunked = true) (hhd : cfg.head = false) (r : R H δ) (payload : Bytes)
+    (hinv : Inv cfg cRem CI G r payload) (hfr : Fresh r)
+    (hfuel : ∀ f, r.fp.fp = some f → f.content.length < cfg.fuel) :
+    ∃ ps r', readChunked hSrc D cfg r amt true = ((ps, none), r') ∧
+      stream hSrc D cfg r amt (some true) = ((ps, none), r') ∧
+      ps.flatten = payload ∧ (∀ x ∈ ps, x ≠ []) ∧ Inv cfg cRem CI G r' [] ∧ hSrc.isclosed r'.fp = true := by
+  obtain ⟨ps, r', h1, h2, h3, h4⟩ := readChunked_on D cfg hD amt hamt hch hhd r payload hinv hfr hfuel
+  refine ⟨ps, r', h1, by simp [stream, hch, h1], h2, ?_, h3, h4⟩
+  have := readChunked_nonempty hSrc D cfg r amt true
+  rw [h1] at this
+  exact this
+
+/-- … with `decode_content=False`: the pieces concatenate to the de-chunked raw body -/
+theorem C12_read_chunked_raw_concat {δ : Type} (D : Dec δ) (cfg : Cfg δ)
+    (amt : Option Nat) (hamt : amt ≠ some 0) (hch : cfg.chunked = true) (hhd : cfg.head = false)
+    (r : R H δ) (raw : Bytes) (hinv : RawInv cRem CI r raw) (hfr : Fresh r)
+    (hfuel : ∀ f, r.fp.fp = some f → f.content.length < cfg.fuel) :
+    ∃ ps r', readChunked hSrc D cfg r amt false = ((ps, none), r') ∧
+      stream hSrc D cfg r amt (some false) = ((ps, none), r') ∧ ps.flatten = raw ∧ (∀ x ∈ ps, x ≠ []) := by
+  obtain ⟨ps, r', h1, h2, _⟩ := readChunked_raw D cfg amt hamt hch hhd r raw hinv hfr hfuel
+  refine ⟨ps, r', h1, by simp [stream, hch, h1], h2, ?_⟩
+  have := readChunked_nonempty hSrc D cfg r amt false
+  rw [h1] at this
+  exact this
+
+/-- **`C12_iter_chunked_concat`**: iteration over a well-framed chunked response from the start:
+terminates, never raises, no empty line piece, the pieces concatenate to the decoded payload -/
+theorem C12_iter_chunked_concat {δ : Type} (D : Dec δ) (cfg : Cfg δ) {G : δ → Bytes → Bytes → Prop}
+    (hD : StreamLaw D G) (hch : cfg.chunked = true) (hhd : cfg.head = false) (r : R H δ) (payload : Bytes)
+    (hinv : Inv cfg cRem CI G r payload) (hfr : Fresh r)
+    (hfuel : ∀ f, r.fp.fp = some f → f.content.length < cfg.fuel) :
+    ∃ lines r', iter hSrc D cfg r = ((lines, none), r') ∧ lines.flatten = payload ∧ (∀ x ∈ lines, x ≠ []) ∧
+      Inv cfg cRem CI G r' [] := by
+  obtain ⟨ps, r', h1, h2, h3, _⟩ := readChunked_on D cfg hD (some 65536) (by simp) hch hhd r payload hinv hfr hfuel
+  have hs : stream hSrc D cfg r (some 65536) (some true) = ((ps, none), r') := by simp [stream, hch, h1]
+  have hi : iter hSrc D cfg r = ((iterSplit ps [], none), r') := by unfold iter; rw [hs]
+  refine ⟨iterSplit ps [], r', hi, by rw [iterSplit_flatten, h2]; rfl, ?_, h3⟩
+  have := iter_nonempty hSrc D cfg r
+  rw [hi] at this
+  exact this
+
+/-- non-vacuity: the chunked gzip response is `Fresh`, and `stream(7)` / `read_chunked(None)` /
+iteration on it yield "hello" -/
+example : Fresh
+    ({ fp := hBegin ⟨[], wireChunkedGzipHello, 3⟩ (some (lit "chunked")) none false 200 false,
+       lengthRemaining := none, conn := true } : R H CD) := ⟨rfl, rfl, by decide +kernel⟩
+
+example :
+    let r0 : R H CD := { fp := hBegin ⟨[], wireChunkedGzipHello, 3⟩ (some (lit "chunked")) none false 200 false,
+                         lengthRemaining := none, conn := true }
+    let cfg : Cfg CD := { cfgGzipHello with chunked := true }
+    (stream hSrc cdDec cfg r0 (some 7) (some true)).1 = ([lit "he", lit "llo"], none) ∧
+    (readChunked hSrc cdDec cfg r0 none true).1 = ([lit "hello"], none) ∧
+    (iter hSrc cdDec cfg r0).1 = ([lit "hello"], none) := by
   decide +kernel
 
 /-! non-vacuity of the hypotheses of the theorems above: the `Content-Length: 20`,
